@@ -53,6 +53,20 @@ NA = {
  'C19': "purity/aliasing/determinism/schema are value-independent facts about numpy/pandas/scipy C internals; a symbolic run must replace exactly those internals by models, so there is nothing for a solver to quantify over (DESIGN.md section 6)",
 }
 ALL = ['C%02d' % i for i in range(1, 20)]
+DEF = " Every divisor met during the symbolic run is additionally shown to be non-zero on the claimed domain (a reciprocal would otherwise silently exclude the inputs where it vanishes)."
+EXTRA = {
+ 'C01': DEF + " A branch of the code on a symbolic value (none in the unmodified tree) is explored by the path executor, each path under its own condition.",
+ 'C02': " Call-position independence: the rows of a chunk are also run as rows w, w+1, ... of a longer kernel call with a symbolic w >= 0 (the chunk-split law for a prefix of any length).",
+ 'C03': DEF, 'C04': DEF + " propagate_errors on three rows with a symbolic ratio of the two intervals (irregular stamps).", 'C05': DEF, 'C06': DEF, 'C11': DEF,
+ 'C07': " Thorough tier: up to 4 states x 2 observations.",
+ 'C08': " Further families: F given as an integer-typed array (the dtype of an argument must not leak: a store of a real-valued quantity into an integer array is a failed obligation) and an exactly diagonal F with the divisors of any closed-form path shown non-zero for all rates.",
+ 'C09': " Every division by a symbolic time quantity must have a divisor that cannot be zero on the path.",
+ 'C10': " Every division by a symbolic time quantity must have a divisor that cannot be zero on the path.",
+ 'C13': " The no-altitude flag is also passed as a falsy numpy boolean and as 0.",
+ 'C15': " Near-uniform interval ratios and non-canonical column layouts of the Imu frame are part of the oracle and of the symbolic frames; if the code leaves what the symbolic run can follow, the numeric oracle decides on the compiled code (reported as such).",
+ 'C17': " Every divisor inside mat_from_rotvec is shown non-zero on its branch (all rotation vectors up to a half turn).",
+ 'C18': " A layout with permuted columns checks that tables are identified by column names.",
+}
 
 
 def main():
@@ -61,6 +75,7 @@ def main():
         if pid not in CHECKS:
             continue
         cat, text, note, tech, ref = CHECKS[pid]
+        text = text + EXTRA.get(pid, '')
         checks.append({"property_id": pid, "quick_cmd": "./check %s --tier quick" % pid,
                        "thorough_cmd": "./check %s --tier thorough" % pid,
                        "evidence_file": "evidence/%s.json" % pid,
